@@ -142,7 +142,33 @@ def classify_advance(F, body, e, depth=0):
     return None
 
 
+def context_free_rule(ck, F, E):
+    """"tokenizing the text of a range on its own yields exactly that one token": what a stretch of text tokenizes to may not
+    depend on what came before it.  The tokenizer's only state that changes from token to token is the cursor (`index`) and
+    the error latch (`errored`, which only ends the iteration); a further field that is written while tokenizing (a
+    "statement start" flag, a mode, the previous token) makes the matchers context dependent.  Fields that are only set when
+    the tokenizer is built (a cached length) are not state in this sense."""
+    fields = F.adt_fields("tokenizer::Tokenizer")
+    if not fields:
+        ck.missing("C13:CONTEXT-FREE", "struct Tokenizer")
+        return
+    extra = {}
+    for fld in fields:
+        if fld in ("index", "errored"):
+            continue
+        w = E.writers_of_field("tokenizer::Tokenizer", fld)
+        w = {k: v for k, v in w.items() if "::tests" not in k}
+        if w:
+            extra[fld] = sorted(k.split("::")[-1] for k in w)
+    ck.require(not extra, "C13:CONTEXT-FREE:tokenizer-state", "ranges re-tokenize to the same token",
+               "of Tokenizer's %d fields only the cursor and the error latch are written after construction" % len(fields),
+               "Tokenizer carries state besides the cursor from one token to the next (%s): what a piece of text tokenizes to depends "
+               "on the tokens before it, so the text of a reported range does not re-tokenize to that token on its own" %
+               "; ".join("%s written in %s" % (k, ",".join(v)) for k, v in sorted(extra.items())))
+
+
 def run(ck, F, E):
+    context_free_rule(ck, F, E)
     # ---- (1)+(3) cursor writes
     n_writes = 0
     for body in F.bodies.values():
@@ -344,7 +370,7 @@ def text_source(body, op):
     return [x for x in calls if x not in TRANSPORT], expr_params(e)
 
 
-def same_text_rule(ck, F, P):
+def same_text_rule(ck, F, P, only=None):
     """Every byte range is an offset into the string the tokenizer was given.  The callers that report ranges
     (the edit path, the source-file analyzer) must hand the tokenizer, the line-number parser and their own length
     bookkeeping the very line they keep / were given -- not a trimmed, stripped or re-encoded copy."""
@@ -353,6 +379,8 @@ def same_text_rule(ck, F, P):
         if body.crate != "abasic_core" or "::tests::" in body.path or "::test" in body.path.split("::")[-2:][0]:
             continue
         if body.self_adt == "abasic_core::tokenizer::Tokenizer":
+            continue
+        if only is not None and body.path.split("::")[-1] not in only:
             continue
         sites = [c for c in body.calls() if c.callee.endswith("tokenizer::Tokenizer::new") or
                  c.callee.endswith("line_number_parser::parse_line_number")]
@@ -372,7 +400,7 @@ def same_text_rule(ck, F, P):
         ck.require(len(roots) == 1, "%s:TEXT:%s:one-source" % (P, body.path.split("::")[-1]), "ranges refer to the caller's text",
                    "line-number parser and tokenizer read the same parameter", "%s feeds the line-number parser and the "
                    "tokenizer from different parameters %s" % (body.path, sorted(roots)), body.span)
-    ck.floor("%s.callers handing text to the tokenizer / line-number parser" % P, n, 2)
+    ck.floor("%s.callers handing text to the tokenizer / line-number parser" % P, n, 2 if only is None else 2 * len(only))
 
 
 def errpos_rules(ck, F, P):
